@@ -343,7 +343,10 @@ def check_property(prop, tier, seed, rebaseline=False):
     with open(os.path.join(EVID, prop + '.json'), 'w') as fh:
         json.dump(ev, fh, indent=1)
     if rebaseline:
-        do_rebaseline(results)
+        if status == 0:
+            do_rebaseline(results)
+        else:
+            lines.append('note: baseline NOT rewritten (status %d)' % status)
     for ln in lines:
         print(ln)
     print('%s %s: %d/%d verification queries discharged over %d units in %d templates, %.1fs (smt %.2fs)%s' % (
